@@ -164,20 +164,23 @@ def gen_site(rng, boom_ok=False):
     free = []
     binders = {"e": "e", "j": "j", "k": "k"}
     shadow = None
+    module_scope = rng.random() < 0.2
     if rng.random() < 0.35:
         which = rng.choice(["e", "j", "j", "k"])
-        shadow = rng.choice(["G0", "G1", "c0", "c1", "K0", "simcfg", "G2"])
+        shadow = rng.choice(["G0", "G1", "K0", "simcfg", "G2"] if module_scope
+                            else ["G0", "G1", "c0", "c1", "K0", "simcfg", "G2"])
         binders[which] = shadow
     e, j, k = binders["e"], binders["j"], binders["k"]
     banned = {shadow} if shadow else set()
 
     def v():
-        cands = [n for n in ["G0", "G1", "K0.A", "K0.In.B", "simcfg.m", "c0", "c1"]
-                 if n.split(".")[0] not in banned]
+        names = (["G0", "G1", "K0.A", "K0.In.B", "simcfg.m", "@c1", "@c1"] if module_scope
+                 else ["G0", "G1", "K0.A", "K0.In.B", "simcfg.m", "c0", "c1"])
+        cands = [n for n in names if n.split(".")[0] not in banned]
         n = rng.choice(cands)
         if n not in free:
             free.append(n)
-        return n
+        return n.lstrip("@")  # at module level the text `c1` means the module global
 
     def tag():
         if "G2" in banned:
@@ -208,7 +211,7 @@ def gen_site(rng, boom_ok=False):
             lambda: f"{e}.jets.Select(lambda {k}: {k}.pt).Select(lambda {j}: {j} + {e}.jets.Select(lambda {j}: {j}.eta + {v()}).Count() + {j})",
             lambda: f"{e}.jets.Select(lambda {k}: {k}.pt).Select(lambda {j}: [{j}.eta for {j} in {e}.jets if {j}.pt > {v()}].Count() + {j})",
         ]
-        if shadow in ("G0", "c0", "c1") and binders["j"] == shadow:
+        if shadow in ("G0", "c0", "c1") and binders["j"] == shadow and not module_scope:
             # the shadowing binder's scope ends; afterwards the name is the captured one again
             def after_scope():
                 if shadow not in free:
@@ -233,7 +236,10 @@ def gen_site(rng, boom_ok=False):
             lambda: f"[{j}.pt * {v()} for {j} in {e}.jets]",
         ]
         body = rng.choice(forms)()
-    return {"op": op, "lam": f"lambda {e}: {body}", "free": sorted(free), "shadow": shadow}
+    site = {"op": op, "lam": f"lambda {e}: {body}", "free": sorted(free), "shadow": shadow}
+    if module_scope:
+        site["scope"] = "module"
+    return site
 
 
 def _gen_value(rng, name, allow_bad):
